@@ -84,7 +84,7 @@ impl F {
     fn why_err(self) -> &'static str {
         match self.size() {
             None => "Err (the file does not exist)",
-            Some(0) => "Err (the OS refuses a zero-length mapping: mmap fails with EINVAL)",
+            Some(0) => "Err (the OS refuses a zero-length mapping: mmap fails with EINVAL), or Ok with a non-null 8-aligned pointer and len() = 0",
             _ => "Err (the file size is not a multiple of 8)",
         }
     }
@@ -414,9 +414,32 @@ fn step(ctx: &mut Ctx, w: &mut World, live: &mut Vec<Live>, acts: &[Act], k: usi
                     return false;
                 }
                 (Ok(map), false) => {
-                    // Never touch the slice of such a map (for the empty file the pointer is MAP_FAILED).
+                    // Never touch the slice of such a map blindly (for the empty file the pointer may be MAP_FAILED).
                     let (len, empty) = (map.len(), map.is_empty());
-                    ctx.require(sig, false, case, || json!({"observed": format!("Ok(map) with len() = {}, is_empty() = {}", len, empty), "expected": file.why_err(), "file_bytes": file.size()}));
+                    // An empty file may also be supported: Ok is fine if the (never dereferenced) element slice is
+                    // valid, i.e. the pointer is non-null and 8-aligned - read from the Debug rendering, not through
+                    // as_ref() - and nothing stays mapped after the drop.
+                    let ptr: Option<usize> = format!("{:?}", map).split("ptr: 0x").nth(1).and_then(|t| usize::from_str_radix(t.split(|c: char| !c.is_ascii_hexdigit()).next().unwrap_or(""), 16).ok());
+                    let valid_empty = file.size() == Some(0) && len == 0 && empty && matches!(ptr, Some(p) if p != 0 && p % 8 == 0);
+                    if valid_empty {
+                        ctx.eval();
+                        ctx.count("map_ok[empty-file supported]", 1);
+                        let _ = guard(move || drop(map));
+                        let after = w.read_maps();
+                        let left: usize = after.iter().filter(|v| v.fid == fid).map(|v| v.end - v.start).sum();
+                        let own_live = live.iter().any(|l| l.f.id() == fid);
+                        if !own_live {
+                            ctx.require(|| "MemoryMap.drop[empty-file]".to_string(), left == 0, case, || json!({"observed": format!("{:#x} bytes are still mapped to the empty file after its map was dropped", left), "expected": "no part of the file remains mapped", "mappings": show(&after)}));
+                        }
+                        let keep: Vec<(usize, usize)> = live.iter().map(|l| l.range(page)).collect();
+                        let (regions, bytes) = w.sweep(&after, &keep);
+                        if regions > 0 {
+                            ctx.count("stale_mappings_cleaned", 1);
+                            ctx.count("stale_bytes_cleaned", bytes);
+                        }
+                        return true;
+                    }
+                    ctx.require(sig, false, case, || json!({"observed": format!("Ok(map) with len() = {}, is_empty() = {}, ptr = {:x?}", len, empty, ptr), "expected": file.why_err(), "file_bytes": file.size()}));
                     let _ = guard(move || drop(map));
                     let after = w.read_maps();
                     let keep: Vec<(usize, usize)> = live.iter().map(|l| l.range(page)).collect();
